@@ -90,11 +90,6 @@ def layout_arrays(chroms):
             numpy.array(lens, dtype="int64"))
 
 
-def is_int_like(x):
-    import numpy
-    return isinstance(x, (int, numpy.integer)) and not isinstance(x, (bool, numpy.bool_))
-
-
 # --------------------------------------------------------------------------------------------------------------
 # independent diagnosis of the INPUT (classification of failures only; never used as the oracle)
 # --------------------------------------------------------------------------------------------------------------
